@@ -1,0 +1,6 @@
+//go:build !verif
+// +build !verif
+
+package js_parser
+
+func VerifOptionsDigest(o *Options) string { return "" }
